@@ -11,6 +11,9 @@ Only property theorems live here; lemmas are in `GluonModel.Proofs.Marshal`.
 -/
 import GluonModel.Marshal
 import GluonModel.Proofs.Marshal
+import GluonModel.Proofs.MarshalFull
+import GluonModel.Proofs.MarshalTypes
+import GluonModel.Proofs.MarshalDe
 
 namespace GluonModel.Props.C11
 open GluonModel.Marshal GluonModel.Marshal.Proofs
@@ -42,19 +45,21 @@ theorem f32_normal_roundtrip (b : Nat) (hb : b < 4294967296)
     (he : 1 ≤ b / 8388608 % 256 ∧ b / 8388608 % 256 ≤ 254) : f64to32 (f32to64 b) = b :=
   f32_roundtrip_normal b hb he
 
-/-
-Full statement (not proved in full):
-  ∀ c v, WT c v → get c (push v) = some v
-for every type code, including structs / struct variants (read back by field name) and
-`BTreeMap<String, _>` (rebuilt from the gluon search tree).  Proved below for the fragment `WTp`:
-unit, u8, all integer widths, f32 (bit patterns that survive the two float casts: see
-`f32_normal_roundtrip`; signalling NaNs are quieted), f64, bool, char, String, Ordering, Option,
-Result, Vec, tuples, newtype / tuple / unit structs, enums with unit and tuple variants — nested
-arbitrarily.  Named fields and maps are covered by the correspondence and the oracle only.
--/
-/-- Round trip: what `from_value` reads from a pushed value is the original. -/
-theorem get_push_partial (c : TCode) (v : Val) (h : WTp c v = true) : get c (push v) = some v :=
-  get_push c v h
+/-- **Round trip, every type code of the model**: what `from_value` reads from a pushed value is the
+    original.  `WT c v` says that `v` is a value of the Rust type `c`: integers in the range of their
+    width, chars scalar values, struct field names as declared and distinct, map keys strictly
+    increasing (a `BTreeMap`), and — the one semantic side condition — an `f32` bit pattern that survives
+    `as f64 as f32` (every pattern except signalling NaNs; proved universally for the normal numbers in
+    `f32_normal_roundtrip`, decided for the other classes in the examples).  Covers named-field structs
+    and struct variants (read back by field name) and `BTreeMap<String, _>` (rebuilt from the gluon
+    search tree), nested arbitrarily. -/
+theorem get_push (c : TCode) (v : Val) (h : WT c v = true) : get c (push v) = some v :=
+  get_push_full c v h
+
+/-- A sorted map is pushed as the right spine of its entries (std/map.glu `insert` never rebalances). -/
+theorem map_is_spine (kvs : List (String × Val)) (h : sortedKeys kvs = true) :
+    push (.map kvs) = (spine (pushKV kvs)).toGV := by
+  simp [push, buildMap_sorted (pushKV kvs) (sortedG_pushKV kvs h)]
 
 /-! ## Gluon observes the corresponding value: constructor tags and shapes -/
 
@@ -83,16 +88,46 @@ theorem vec_is_array (vs : List Val) : ∃ r, push (.vec vs) = .array r (pushL v
   obtain ⟨r, hr⟩ := mkArray_shape (pushL vs)
   exact ⟨r, by simp [push, hr], pushL_length vs⟩
 
-/-! ## Wrong-type requests are refused -/
+/-! ## Wrong-type requests are refused
 
-/-- `get_global::<T>` of a global whose gluon type is not `T`'s is refused. -/
-theorem get_global_wrong_type_refused (requested actual : TCode)
-    (h : typeStr requested ≠ typeStr actual) : getGlobal requested actual = .wrongType := by
-  simp [getGlobal, h]
+`getGlobal` = thread.rs:850: `check_signature(T::make_type, actual)`, i.e. `unify_type::zip_match` on the
+two gluon types (`unify`), `Error::WrongType` otherwise.  `gtypeOf` = `VmType::make_type`. -/
 
-theorem get_global_same_type_accepted (requested actual : TCode)
-    (h : typeStr requested = typeStr actual) : getGlobal requested actual = .ok := by
-  simp [getGlobal, h]
+/-- The signature check accepts exactly the equal gluon types (records: same fields in the same order). -/
+theorem signature_check_is_equality (a b : GType) : unify a b = true ↔ a = b :=
+  unify_iff a b
+
+/-- A request at a Rust type whose gluon type differs from the global's is refused with `WrongType`. -/
+theorem wrong_type_refused (requested actual : TCode) (h : gtypeOf requested ≠ gtypeOf actual) :
+    getGlobal requested actual = .wrongType := by
+  have : unify (gtypeOf requested) (gtypeOf actual) = false := by
+    cases hu : unify (gtypeOf requested) (gtypeOf actual)
+    · rfl
+    · exact absurd (unify_eq _ _ hu) h
+  simp [getGlobal, this]
+
+/-- and only those: a request at any Rust type with the same gluon type is served. -/
+theorem same_gluon_type_accepted (requested actual : TCode) (h : gtypeOf requested = gtypeOf actual) :
+    getGlobal requested actual = .ok := by
+  simp [getGlobal, h, unify_refl]
+
+theorem get_global_ok_iff (requested actual : TCode) :
+    getGlobal requested actual = .ok ↔ gtypeOf requested = gtypeOf actual := by
+  constructor
+  · intro h
+    cases hu : unify (gtypeOf requested) (gtypeOf actual)
+    · simp [getGlobal, hu] at h
+    · exact unify_eq _ _ hu
+  · exact same_gluon_type_accepted requested actual
+
+/-- Rust types sharing one gluon type (legitimately interchangeable for the host): all integer widths
+    are `Int`, both floats `Float`, a newtype struct its content, a tuple struct the tuple, a unit
+    struct `()`. -/
+theorem shared_gluon_types (t t' : IntTy) (c : TCode) (ts : List TCode) :
+    gtypeOf (.int t) = gtypeOf (.int t') ∧ gtypeOf .f32 = gtypeOf .f64 ∧
+    gtypeOf (.newtype c) = gtypeOf c ∧ gtypeOf (.tstruct ts) = gtypeOf (.tuple ts) ∧
+    gtypeOf .ustruct = gtypeOf .unit := by
+  simp [gtypeOf]
 
 /-! ## The serde bridge is NOT type-faithful (defects of the unchanged code; the oracle reproduces
     each of them on the implementation: fingerprints `ser-shape:*`) -/
@@ -128,6 +163,63 @@ theorem ser_eq_push_partial :
     (∀ s, ser (.str s) = push (.str s)) ∧ ser .none = push .none :=
   ⟨fun _ _ => rfl, fun _ => rfl, fun _ => rfl, fun _ => rfl, fun _ => rfl, rfl⟩
 
+/-! ## `De` (vm/src/api/de.rs): where it is right, and its defects (fingerprints `de:*`) -/
+
+/-
+Full statement: ∀ c v, WT c v → de c c (push v) = ok v.  FALSE for the unchanged code (witnesses below);
+proved for `WTd`: u8, all integers, f32/f64, bool, char, String, Option, Vec, named-field structs
+(read through the *gluon* record type, by name), newtype and unit structs, enums with unit, newtype,
+tuple and struct variants — nested arbitrarily.  Not in `WTd`: unit, tuples, tuple structs, Result,
+maps (each refuted below) and Ordering (no serde impls).
+-/
+/-- Reading a pushed value back with `De` gives the original. -/
+theorem de_push_partial (c : TCode) (v : Val) (h : WTd c v = true) : de c c (push v) = .ok v :=
+  de_push c v h
+
+/-- the same through any number of newtype wrappers around the gluon-side type -/
+theorem de_push_newtype_partial (c gl : TCode) (v : Val) (h : WTd c v = true)
+    (hs : strip gl = strip c) : de c gl (push v) = .ok v :=
+  de_push_gen c v gl h hs
+
+/-- `()` pushed by Rust (`Int 0`, api/mod.rs:820) is refused by `deserialize_unit` (de.rs:509). -/
+theorem de_unit_fails : de .unit .unit (push .unit) = .err :=
+  de_unit_err
+
+/-- No tuple and no tuple struct can be read: `deserialize_seq` (de.rs:542) has no arm for
+    record-typed data and `deserialize_any` sends it to `visit_enum`. -/
+theorem de_tuple_fails (ts : List TCode) (vs : List Val) :
+    de (.tuple ts) (.tuple ts) (push (.tuple vs)) = .err ∧
+    de (.tstruct ts) (.tstruct ts) (push (.tstruct vs)) = .err :=
+  ⟨de_tuple_err ts vs, de_tstruct_err ts vs⟩
+
+/-- `Result`: serde numbers `Ok` 0 / `Err` 1, gluon `Err` 0 / `Ok` 1 — a pushed `Ok v` is read with
+    the error type's deserializer and can only come back as `Err _` (or fail), and vice versa. -/
+theorem de_result_swapped_fails (t e : TCode) (v : Val) :
+    de (.result t e) (.result t e) (push (.ok v)) =
+        (match de e t (push v) with | .ok y => .ok (.err y) | o => o) ∧
+    de (.result t e) (.result t e) (push (.err v)) =
+        (match de t e (push v) with | .ok y => .ok (.ok y) | o => o) :=
+  ⟨de_result_ok t e v, de_result_err t e v⟩
+
+/-- Every map — the empty one included — sends `De` into the unbounded recursion
+    `deserialize_map` (de.rs:600) ↔ `deserialize_any` (de.rs:298): stack overflow. -/
+theorem de_map_crashes_fails (t : TCode) (kvs : List (String × Val)) :
+    de (.map t) (.map t) (push (.map kvs)) = .crash :=
+  de_map_crash t kvs
+
+/-- Suggested fixes (variants of the three confused arms) do read the pushed values back. -/
+theorem de_unit_fixed : deUnitFixed (push .unit) = .ok .unit :=
+  de_unit_fixed_ok
+
+theorem de_result_fixed (t e : TCode) (v : Val) :
+    (WTd t v = true → deResultFixed t e (push (.ok v)) = .ok (.ok v)) ∧
+    (WTd e v = true → deResultFixed t e (push (.err v)) = .ok (.err v)) :=
+  de_result_fixed_ok t e v
+
+theorem de_tuple_fixed (ts : List TCode) (vs : List Val) (h : WTds ts vs = true) :
+    deTupleFixed ts (push (.tuple vs)) = .ok (.tuple vs) :=
+  de_tuple_fixed_ok ts vs h
+
 /-! ## Rooting (`Pushable::marshal`, `run_expr::<T>`, `OpaqueValue` keep the value in a `RootedValue`) -/
 
 /-- Every unboxed value that was rooted — NaN floats included — is found again by
@@ -152,9 +244,25 @@ theorem rooted_float_old_rule_partial (b : Nat) (rooted : List GV) (h : isNaN64 
 
 def shapeT : TCode := .enum "Shape" [.vunit, .vtuple [.f64], .vtuple [.string, .option (.int .i32)]]
 
-example : WTp (.tuple [.int .u64, .vec (.option .u8), shapeT])
+def recT : TCode := .struct [("zeta", .string), ("alpha", .vec .string), ("opt", .option .u8)]
+def recV : Val := .struct [("zeta", .str "é"), ("alpha", .vec [.str "", .str "b"]), ("opt", .some (.u8 255))]
+
+example : WT (.tuple [.int .u64, .vec (.option .u8), shapeT, .map recT])
     (.tuple [.int .u64 18446744073709551615, .vec [.some (.u8 255), .none],
-      .var 2 (.vtuple [.str "é", .some (.int .i32 (-2147483648))])]) = true := by decide
+      .var 2 (.vtuple [.str "é", .some (.int .i32 (-2147483648))]),
+      .map [("", recV), ("a", recV), ("é", recV)]]) = true := by decide
+example : WTd (.vec (.enum "E" [.vunit, .vtuple [.f64], .vstruct [("w", .int .u32), ("h", .int .u32)]]))
+    (.vec [.var 0 .vunit, .var 1 (.vtuple [.f64 0]),
+      .var 2 (.vstruct [("w", .int .u32 4294967295), ("h", .int .u32 0)])]) = true := by decide
+example : WTd recT recV = true := by decide
+example : f64to32 (f32to64 8388607) = 8388607 ∧ f64to32 (f32to64 2147483649) = 2147483649 ∧
+    f64to32 (f32to64 2139095040) = 2139095040 ∧ f64to32 (f32to64 2143289344) = 2143289344 ∧
+    f64to32 (f32to64 0) = 0 := by decide   -- largest subnormal, -min subnormal, +inf, quiet NaN, 0
+example : gtypeOf .char ≠ gtypeOf (.int .i64) ∧ gtypeOf .u8 ≠ gtypeOf (.int .i64) := by
+  simp [gtypeOf]
+example : getGlobal (.struct [("x", .int .i32), ("y", .f64)]) (.struct [("y", .f64), ("x", .int .i32)])
+    = .wrongType := by decide
+example : getGlobal (.int .u16) (.int .i64) = .ok := by decide
 example : push (.int .u64 18446744073709551615) = .int (-1) := by rfl
 example : get (.int .u64) (.int (-1)) = some (.int .u64 18446744073709551615) := by rfl
 example : inRange .i64 (-9223372036854775808) = true := by decide
@@ -163,7 +271,6 @@ example : f64to32 (f32to64 1) = 1 := by decide                       -- smallest
 example : f64to32 (f32to64 2139095041) = 2143289345 := by decide     -- signalling NaN is quieted
 example : push (.vec [.u8 1, .u8 2]) = .array .byte [.byte 1, .byte 2] := by rfl
 example : push (.vec []) = .array .unknown [] := by rfl
-example : typeStr (.int .u16) = typeStr (.int .i64) ∧ typeStr .char ≠ typeStr (.int .i64) := by decide
 example : isNaN64 9221120237041090560 = true := by decide
 example : unboxed (.float 9221120237041090560) = true ∧
     unrootFinds [.int 3, .float 9221120237041090560] (.float 9221120237041090560) = true := by decide
